@@ -207,6 +207,13 @@ def gen_c16(tier, seed):
                 "3.0-rc", "1e3x", "v2", "beta", "7", "1.9.1", "10", "1.10"]
     scs.append(pure("versions-21", "sort_args", attr="name", reverse=False, names=versions))
     scs.append(pure("zero-spellings", "cmp_grid", attr="name", names=["0", "0.0", "-0"]))
+    # integers beyond 128 bits (no integer type of the code holds them; Names.tla reads them as
+    # decimals, which are ordered by f64 value - neighbours may tie): 2^128 + k, -(2^127) - k
+    bigs = [str(2 ** 128 + d) for d in (2, 1, 0, 7)] + [str(-(2 ** 127) - d) for d in (3, 1, 2)]
+    scs.append(pure("beyond-128-bits", "sort_args", attr="name", reverse=False, names=bigs[:4]))
+    scs.append(pure("beyond-128-bits-r", "sort_args", attr="name", reverse=True, names=bigs[:4]))
+    scs.append(pure("beyond-128-bits-neg", "sort_args", attr="name", reverse=False, names=bigs[4:] + ["5", "-5"]))
+    scs.append(pure("beyond-128-bits-grid", "cmp_grid", attr="name", names=bigs))
     # exhaustive small domain: every ordered pair, every attribute
     dom = strs_upto(MC_ALPHABET, 2)
     scs.append(pure("grid-natural-2", "cmp_grid", attr="natural", names=dom))
